@@ -145,6 +145,23 @@ func c08Sync(p vbase.Params, r *vbase.Result) {
 		}
 		c.takeSent(subj)
 		counted := map[hotstuff.View]map[hotstuff.ID]bool{}
+		genuine := map[hotstuff.View][]hotstuff.TimeoutMsg{} // genuine timeouts delivered, for the BLS library-defect discriminator
+		aggDefect := func(v hotstuff.View) bool {
+			if scheme != crypto.NameBLS12 || !agg || len(genuine[v]) < 2 {
+				return false
+			}
+			ag, err := c.W.M(2).Auth.CreateAggregateQC(v, genuine[v])
+			if err != nil {
+				return false
+			}
+			return c.W.LibraryDefect(ag.Sig(), func(id hotstuff.ID) []byte {
+				qc, ok := ag.QCs()[id]
+				if !ok {
+					return nil
+				}
+				return hotstuff.TimeoutMsg{ID: id, View: ag.View(), SyncInfo: hotstuff.NewSyncInfoWith(qc)}.ToBytes()
+			})
+		}
 		viewsUsed := map[hotstuff.View]bool{}
 		steps := rng.Range(4, 40)
 		bad := false
@@ -211,6 +228,9 @@ func c08Sync(p vbase.Params, r *vbase.Result) {
 				default:
 					valid = true
 				}
+				if valid {
+					genuine[tv] = append(genuine[tv], tm)
+				}
 				c.inject(sender, subj, tm)
 			}
 			if c.Panic != nil {
@@ -239,7 +259,10 @@ func c08Sync(p vbase.Params, r *vbase.Result) {
 			}
 			// (b) a quorum of correctly signed timeouts for a view the subject has not left moves it on
 			for v, set := range counted {
-				if len(set) >= q && v >= cur && now <= v {
+				if len(set) >= q && v >= cur && now <= v && aggDefect(v) {
+					r.Obs("bls_library_defect_cases_skipped", 1)
+					bad = true // not judged further
+				} else if len(set) >= q && v >= cur && now <= v {
 					fail("quorum-ignored", "correctly signed timeouts for view %d from %d distinct replicas %v have arrived (q=%d) but the subject is still in view %d", v, len(set), vk.SortedIDs(set), q, now)
 					bad = true
 				}
@@ -270,7 +293,9 @@ func c08Sync(p vbase.Params, r *vbase.Result) {
 					r.Obs("aggregate_certs_emitted", 1)
 					verd, signers, best := c.W.TrueAggQC(ag)
 					high, err := safeVerifyAgg(c.W.M(2), ag)
-					if err != nil || verd == vk.MustReject {
+					if err != nil && verd != vk.MustReject && scheme == crypto.NameBLS12 {
+						r.Obs("bls_library_defect_cases_skipped", 1)
+					} else if err != nil || verd == vk.MustReject {
 						fail("emitted-aggqc-invalid", "the aggregate certificate (claimed view %d) sent by the subject does not verify at replica 2 (%v; ground truth: %s, %d real signers)", ag.View(), err, verd, len(signers))
 						bad = true
 					} else if best != nil && high.View() != best.View() {
